@@ -24,3 +24,13 @@ Theorem oracle_order_free_msep : forall g g' X X' Y Y' Z Z', gequiv g g' ->
   incl Z (V g) -> msep_dec g X Y Z = msep_dec g' X' Y' Z'.
 Proof. exact msep_dec_order_free. Qed.
 Print Assumptions oracle_order_free_msep.
+
+(* model level: the executable model of m_separated (C01) commutes with every one-to-one renaming on C01's whole domain
+   (corollary of C01's unbounded correctness theorem msep_model_dec and of oracle_equivariant_msep) *)
+From PG Require Import Graph.Walks C01.Model C01.Spec C15.ModelEquiv.
+Theorem model_equivariant_msep : forall f g X Y Z, injective f ->
+  acyclicb g = true -> (U g = nil \/ ancestral_und g) ->
+  incl X (V g) -> incl Z (V g) -> disjoint X Y -> disjoint X Z ->
+  msep_model (rmap f g) (map f X) (map f Y) (map f Z) = msep_model g X Y Z.
+Proof. intros f g X Y Z Hf. exact (msep_model_rmap f Hf g X Y Z). Qed.
+Print Assumptions model_equivariant_msep.
